@@ -1,7 +1,6 @@
 import Geo.Props.C10
-open Geo
-#print axioms T10_mirror2
-#print axioms T10_mirror_spec
-#print axioms T10_mirror_involution_2d
-#print axioms T10_mirror_involution_3d
-#print axioms T10_is_perpendicular
+#print axioms Geo.T10_mirror2
+#print axioms Geo.T10_mirror_spec
+#print axioms Geo.T10_mirror_involution_2d
+#print axioms Geo.T10_mirror_involution_3d
+#print axioms Geo.T10_is_perpendicular
